@@ -1746,3 +1746,117 @@ func H_C06_chunkOutputs(kind, level int) {
 		}
 	}
 }
+
+// ---- projection of a struct member through nested collections ----
+
+const vrGridSrc = `
+struct CELL(
+    int    v,
+    string name,
+)
+
+stage MAKE(
+    in  int          n,
+    out CELL[][]     grid,
+    out map<CELL[]>  sheets,
+    out map<CELL>[]  rows,
+    out CELL[]       line,
+    src comp         "bin",
+)
+
+stage USE(
+    in  int[][]    g,
+    in  map<int[]> s,
+    in  map<int>[] r,
+    in  int[]      l,
+    in  CELL[][]   whole,
+    out int        o,
+    src comp       "bin",
+)
+
+pipeline P(
+    in  int n,
+    out int o,
+)
+{
+    call MAKE(
+        n = self.n,
+    )
+
+    call USE(
+        g     = MAKE.grid.v,
+        s     = MAKE.sheets.v,
+        r     = MAKE.rows.v,
+        l     = MAKE.line.v,
+        whole = MAKE.grid,
+    )
+
+    return (
+        o = USE.o,
+    )
+}
+
+call P(
+    n = 1,
+)
+`
+
+func vrGridGraph() *vrReal {
+	disableUniquification = false
+	return verifCached("vrGridGraph", func() any {
+		rt := &Runtime{Config: &RuntimeOptions{JobMode: "local", VdrMode: VdrDisable}, mrjob: "/m/mrjob", adaptersPath: "/m/adapters"}
+		_, _, ps, err := rt.instantiatePipeline([]byte(vrGridSrc), "/m/p.mro", "ps", "/ps", nil, "none", nil, false, true, context.Background())
+		if err != nil {
+			panic("fixture does not instantiate: " + err.Error())
+		}
+		n := func(name string) *Node { return ps.node.top.allNodes["ID.ps.P."+name] }
+		return &vrReal{ps, n("MAKE"), n("USE"), nil}
+	}).(*vrReal)
+}
+
+// H_C01_projectNested(n0, n1): MAKE returned a two-dimensional array of
+// structs (rows of n0 and n1 cells), a typed map of arrays of structs, an
+// array of typed maps of structs and a plain array of structs, every member an
+// arbitrary digit / letter; USE is bound to the member v projected through
+// each of them.
+//
+//	C01/C07: the consumer receives the member of every element, in the shape of
+//	     the collection it was projected through, and no binding-resolution
+//	     error occurs for the accepted program.
+func H_C01_projectNested(n0, n1 int) {
+	w := vrGridGraph()
+	make_, use := w.gen, w.work
+	vrOuts = map[*Metadata]LazyArgumentMap{}
+	cell := func() (json.RawMessage, json.RawMessage) {
+		v := vrDigit("v")
+		l := verifBytes("name", 1)
+		verifAssume(verifAll(l[0] >= 'a', l[0] <= 'z'))
+		return vrCat([]byte(`{"name":"`), l, []byte(`","v":`), v, []byte(`}`)), v
+	}
+	row := func(n int) (json.RawMessage, json.RawMessage) {
+		cs, vs := make([]json.RawMessage, n), make([]json.RawMessage, n)
+		for i := range cs {
+			cs[i], vs[i] = cell()
+		}
+		return vrArray(cs), vrArray(vs)
+	}
+	r0, v0 := row(n0)
+	r1, v1 := row(n1)
+	grid, gridV := vrArray([]json.RawMessage{r0, r1}), vrArray([]json.RawMessage{v0, v1})
+	sh, shV := row(n1)
+	sheets, sheetsV := vrCat([]byte(`{"k":`), sh, []byte(`}`)), vrCat([]byte(`{"k":`), shV, []byte(`}`))
+	c1, cv1 := cell()
+	c2, cv2 := cell()
+	rows := vrCat([]byte(`[{"a":`), c1, []byte(`},{"b":`), c2, []byte(`}]`))
+	rowsV := vrCat([]byte(`[{"a":`), cv1, []byte(`},{"b":`), cv2, []byte(`}]`))
+	line, lineV := row(n0)
+	vrOuts[make_.forks[0].metadata] = LazyArgumentMap{"grid": grid, "sheets": sheets, "rows": rows, "line": line}
+	_, args, err := use.resolveInputs(use.forks[0].forkId, false)
+	verifCover("nested projections resolved")
+	verifAssert(err == nil, "C07/C01: projecting a struct member through nested collections of an accepted program raises no binding-resolution error at run time")
+	if err != nil {
+		return
+	}
+	want := vrCat([]byte(`{"g":`), gridV, []byte(`,"l":`), lineV, []byte(`,"r":`), rowsV, []byte(`,"s":`), sheetsV, []byte(`,"whole":`), grid, []byte(`}`))
+	verifAssert(verifBytesEq(vrEncode(args), want), "C01: a member projected through arrays of arrays, typed maps of arrays and arrays of typed maps arrives as the member of every element, in the same shape")
+}
